@@ -1,6 +1,1192 @@
 import OnetVerif.Model.C15
-/-! Property C15 — property theorems, negation witnesses, `_partial` variants and non-vacuity
-examples only (helper lemmas that need Mathlib go to OnetVerif/Proofs/). -/
+/-! Property C15 — streams deliver everything in order and end cleanly whoever leaves first.
+Property theorems, negation witnesses, `_partial` variants, non-vacuity examples and the lemmas they
+need. -/
 namespace C15
+
+/-! ### bookkeeping lemmas -/
+
+/-- the forwarder of a channel is still running -/
+def live (st : Stream) : Bool := st.fwd != .done
+
+theorem countP_set' {α : Type} {p : α → Bool} {l : List α} {i : Nat} {t t' : α} (h : l[i]? = some t) :
+    (l.set i t').countP p + (if p t then 1 else 0) = l.countP p + (if p t' then 1 else 0) := by
+  have hi : i < l.length := by
+    rcases Nat.lt_or_ge i l.length with h' | h'
+    · exact h'
+    · simp [List.getElem?_eq_none h'] at h
+  have ht : l[i] = t := by simpa [List.getElem?_eq_getElem hi] using h
+  have := List.boole_getElem_le_countP (p := p) hi
+  rw [List.countP_set hi, ht] at *
+  omega
+
+theorem mem_set_cases {α : Type} {l : List α} {i : Nat} {a b : α} (h : a ∈ l.set i b) : a ∈ l ∨ a = b :=
+  List.mem_or_eq_of_mem_set h
+
+theorem getElem?_set_cases {α : Type} (l : List α) (i j : Nat) (a b : α) (h : (l.set i a)[j]? = some b) :
+    (i = j ∧ b = a) ∨ (i ≠ j ∧ l[j]? = some b) := by
+  by_cases hij : i = j
+  · subst hij
+    by_cases hl : i < l.length
+    · rw [List.getElem?_set_self hl] at h; exact Or.inl ⟨rfl, by simpa using h.symm⟩
+    · rw [List.set_eq_of_length_le (by omega)] at h
+      rw [List.getElem?_eq_none (by omega)] at h; simp at h
+  · rw [List.getElem?_set_ne hij] at h; exact Or.inr ⟨hij, h⟩
+
+/-! ### the server never crashes (code as it is, every schedule) -/
+
+/-- invariant behind "no send on, no close of a closed channel" -/
+structure Inv (s : St) : Prop where
+  nopanic : s.panic = none
+  noextra : ∀ st ∈ s.streams, st.extra = []
+  count : s.fcount = s.streams.countP live
+  closedZero : s.outClosed = true → s.fcount = 0
+  rdone : s.inClosed = true ↔ s.rpc = .done
+
+theorem inv_init (m : CMsg) : Inv (init m) := by
+  constructor <;> simp [init, live]
+
+theorem getFwd_zero (st : Stream) (h : st.extra = []) (f : Nat) (pc : FPc) (hf : getFwd st f = some pc) :
+    f = 0 ∧ st.fwd = pc := by
+  unfold getFwd at hf
+  split at hf
+  · exact ⟨by assumption, by simpa using hf⟩
+  · simp [h] at hf
+
+theorem live_pos {l : List Stream} {k : Nat} {st : Stream} (h : l[k]? = some st) (hl : live st = true) :
+    0 < l.countP live :=
+  List.countP_pos_iff.mpr ⟨st, List.mem_of_getElem? h, hl⟩
+
+/-- replacing the forwarder state of channel `k` -/
+theorem inv_setFwd {s : St} (hI : Inv s) {k : Nat} {st : Stream} (hk : s.streams[k]? = some st)
+    (st' : Stream) (hx : st'.extra = []) :
+    (∀ u ∈ s.streams.set k st', u.extra = []) ∧
+    (s.streams.set k st').countP live + (if live st then 1 else 0) = s.fcount + (if live st' then 1 else 0) := by
+  refine ⟨?_, ?_⟩
+  · intro u hu
+    rcases mem_set_cases hu with hu | rfl
+    · exact hI.noextra u hu
+    · exact hx
+  · rw [hI.count]; exact countP_set' hk
+
+/-- count bookkeeping when channel `k` goes from `st` to `st'` -/
+theorem count_move {s : St} (hI : Inv s) {k : Nat} {st : Stream} (hk : s.streams[k]? = some st)
+    (st' : Stream) (a b : Nat) (ha : a = if st.fwd = .done then 0 else 1)
+    (hb : b = if st'.fwd = .done then 0 else 1) :
+    (s.streams.set k st').countP live + a = s.fcount + b := by
+  have := countP_set' (p := live) (t' := st') hk
+  rw [hI.count, ha, hb]
+  have e1 : (if live st = true then 1 else 0) = (if st.fwd = .done then 0 else 1) := by
+    by_cases h : st.fwd = .done <;> simp [live, h]
+  have e2 : (if live st' = true then 1 else 0) = (if st'.fwd = .done then 0 else 1) := by
+    by_cases h : st'.fwd = .done <;> simp [live, h]
+  omega
+
+theorem extra_set {s : St} (hI : Inv s) {k : Nat} (st' : Stream) (hx : st'.extra = []) :
+    ∀ u ∈ s.streams.set k st', u.extra = [] := by
+  intro u hu
+  rcases mem_set_cases hu with hu | rfl
+  · exact hI.noextra u hu
+  · exact hx
+
+theorem inv_step (caps : Caps) (s s' : St) (a : Act) (hI : Inv s) (h : step .fixed caps s a = some s') :
+    Inv s' := by
+  have hps : s.panic.isSome = false := by simp [hI.nopanic]
+  unfold step at h
+  simp only [hps, Bool.false_eq_true, if_false] at h
+  cases a with
+  | cSend m =>
+    simp only at h
+    split at h
+    · simp at h
+    · simp only [Option.some.injEq] at h; subst h; exact ⟨hI.1, hI.2, hI.3, hI.4, hI.5⟩
+  | cLeave =>
+    simp only at h
+    split at h
+    · simp at h
+    · simp only [Option.some.injEq] at h; subst h; exact ⟨hI.1, hI.2, hI.3, hI.4, hI.5⟩
+  | rStep =>
+    simp only at h
+    split at h
+    · -- read
+      rename_i hr
+      split at h
+      · simp only [readerExit, Variant.fixed, if_true, Option.some.injEq] at h; subst h
+        exact ⟨hI.1, hI.2, hI.3, hI.4, by simp⟩
+      · split at h
+        · simp only [Option.some.injEq] at h; subst h
+          refine ⟨hI.1, hI.2, hI.3, hI.4, ?_⟩
+          have := hI.rdone
+          simp only [hr] at this
+          simp [this]
+        · split at h
+          · simp only [readerExit, Variant.fixed, if_true, Option.some.injEq] at h; subst h
+            exact ⟨hI.1, hI.2, hI.3, hI.4, by simp⟩
+          · simp at h
+    · -- hold
+      rename_i m hr
+      have hnc : s.inClosed = false := by
+        cases hc : s.inClosed with
+        | false => rfl
+        | true => have := hI.rdone.mp hc; rw [hr] at this; simp at this
+      simp only [hnc, Bool.false_eq_true, if_false] at h
+      split at h
+      · simp only [Option.some.injEq] at h; subst h
+        exact ⟨hI.1, hI.2, hI.3, hI.4, by simp [hnc]⟩
+      · simp at h
+    · simp at h
+  | rLeave =>
+    simp only at h
+    split at h
+    · split at h
+      · simp only [readerExit, Variant.fixed, if_true, Option.some.injEq] at h; subst h
+        exact ⟨hI.1, hI.2, hI.3, hI.4, by simp⟩
+      · simp at h
+    · simp at h
+  | aStep =>
+    simp only at h
+    split at h
+    · simp at h
+    · split at h
+      · split at h
+        · simp only [Option.some.injEq] at h; subst h; exact ⟨hI.1, hI.2, hI.3, hI.4, hI.5⟩
+        · simp at h
+      · rename_i m rest hq
+        split at h
+        · simp only [Option.some.injEq] at h; subst h; exact ⟨hI.1, hI.2, hI.3, hI.4, hI.5⟩
+        · have hfail : ∀ c, Inv (adapterFail .fixed { s with inq := rest, calls := c }) := by
+            intro c
+            simp only [adapterFail, Variant.fixed, if_true]
+            refine ⟨hI.1, hI.2, hI.3, ?_, hI.5⟩
+            intro hc
+            simp only [Bool.or_eq_true, beq_iff_eq] at hc
+            rcases hc with hc | hc
+            · exact hI.closedZero hc
+            · exact hc
+          have hnew : ∀ c, Inv (newStream .fixed { s with inq := rest, calls := c }) := by
+            intro c
+            simp only [newStream, Variant.fixed, if_true]
+            split
+            · refine ⟨hI.1, ?_, ?_, hI.4, hI.5⟩
+              · intro u hu
+                simp only [List.mem_append, List.mem_singleton] at hu
+                rcases hu with hu | rfl
+                · exact hI.noextra u hu
+                · rfl
+              · simp [List.countP_append, live, hI.count]
+            · rename_i hoc
+              refine ⟨hI.1, ?_, ?_, ?_, hI.5⟩
+              · intro u hu
+                simp only [List.mem_append, List.mem_singleton] at hu
+                rcases hu with hu | rfl
+                · exact hI.noextra u hu
+                · rfl
+              · simp [List.countP_append, live, hI.count]
+              · intro hc; simp [hoc] at hc
+          cases m with
+          | garbage => simp only [Option.some.injEq] at h; subst h; exact hfail s.calls
+          | failing => simp only [Option.some.injEq] at h; subst h; exact hfail (s.calls + 1)
+          | fresh => simp only [Option.some.injEq] at h; subst h; exact hnew (s.calls + 1)
+          | reuse j =>
+            simp only at h
+            split at h
+            · simp only [Option.some.injEq] at h; subst h; exact hnew (s.calls + 1)
+            · simp only [Variant.fixed, if_true, Option.some.injEq] at h; subst h
+              exact ⟨hI.1, hI.2, hI.3, hI.4, hI.5⟩
+  | emit k f x =>
+    simp only at h
+    split at h
+    · simp at h
+    · rename_i st hk
+      split at h
+      · simp at h
+      · split at h
+        · rename_i hg
+          have hx := hI.noextra st (List.mem_of_getElem? hk)
+          obtain ⟨rfl, hfw⟩ := getFwd_zero st hx f _ hg
+          simp only [Option.some.injEq] at h; subst h
+          have h2 := count_move hI hk (setFwd { st with emitted := st.emitted ++ [x] } 0 (.hold x)) 1 1
+            (by simp [hfw]) (by simp [setFwd])
+          exact ⟨hI.1, extra_set hI _ (by simp [setFwd, hx]), by simp only; omega, hI.4, hI.5⟩
+        · simp at h
+  | svcClose k =>
+    simp only at h
+    split at h
+    · simp at h
+    · rename_i st hk
+      split at h
+      · simp at h
+      · simp only [Option.some.injEq] at h; subst h
+        have hx := hI.noextra st (List.mem_of_getElem? hk)
+        have h2 := count_move hI hk { st with chanClosed := true } _ _ rfl rfl
+        exact ⟨hI.1, extra_set hI _ (by simp [hx]), by simp only at h2 ⊢; omega, hI.4, hI.5⟩
+  | fStep k f =>
+    simp only at h
+    split at h
+    · simp at h
+    · rename_i st hk
+      have hx := hI.noextra st (List.mem_of_getElem? hk)
+      split at h
+      · -- recv
+        rename_i hg
+        obtain ⟨rfl, hfw⟩ := getFwd_zero st hx f _ hg
+        split at h
+        · simp only [fwdExit, Variant.fixed, if_true, Option.some.injEq] at h; subst h
+          have h2 := count_move hI hk (setFwd st 0 .done) 1 0 (by simp [hfw]) (by simp [setFwd])
+          have hpos := live_pos hk (by simp [live, hfw])
+          rw [← hI.count] at hpos
+          refine ⟨hI.1, extra_set hI _ (by simp [setFwd, hx]), by simp only; omega, ?_, hI.5⟩
+          intro hc
+          simp only [Bool.or_eq_true, beq_iff_eq] at hc
+          rcases hc with hc | hc
+          · have := hI.closedZero hc; omega
+          · exact hc
+        · simp at h
+      · -- hold
+        rename_i y hg
+        obtain ⟨rfl, hfw⟩ := getFwd_zero st hx f _ hg
+        have hpos := live_pos hk (by simp [live, hfw])
+        rw [← hI.count] at hpos
+        have hoc : s.outClosed = false := by
+          cases hc : s.outClosed with
+          | false => rfl
+          | true => have := hI.closedZero hc; omega
+        simp only [hoc, Bool.false_eq_true, if_false] at h
+        split at h
+        · simp only [Option.some.injEq] at h; subst h
+          have h2 := count_move hI hk (setFwd st 0 .recv) 1 1 (by simp [hfw]) (by simp [setFwd])
+          refine ⟨hI.1, extra_set hI _ (by simp [setFwd, hx]), by simp only; omega, ?_, hI.5⟩
+          intro hc; simp [hoc] at hc
+        · simp at h
+      · simp at h
+  | fDrop k f =>
+    simp only at h
+    split at h
+    · simp at h
+    · rename_i st hk
+      have hx := hI.noextra st (List.mem_of_getElem? hk)
+      split at h
+      · rename_i y hg
+        obtain ⟨rfl, hfw⟩ := getFwd_zero st hx f _ hg
+        split at h
+        · simp only [fwdExit, Variant.fixed, if_true, Option.some.injEq] at h; subst h
+          have h2 := count_move hI hk (setFwd st 0 .done) 1 0 (by simp [hfw]) (by simp [setFwd])
+          have hpos := live_pos hk (by simp [live, hfw])
+          rw [← hI.count] at hpos
+          refine ⟨hI.1, extra_set hI _ (by simp [setFwd, hx]), by simp only; omega, ?_, hI.5⟩
+          intro hc
+          simp only [Bool.or_eq_true, beq_iff_eq] at hc
+          rcases hc with hc | hc
+          · have := hI.closedZero hc; omega
+          · exact hc
+        · simp at h
+      · simp at h
+  | stop k =>
+    simp only at h
+    split at h
+    · simp at h
+    · rename_i st hk
+      split at h
+      · simp only [Option.some.injEq] at h; subst h
+        have hx := hI.noextra st (List.mem_of_getElem? hk)
+        have h2 := count_move hI hk { st with stopClosed := true } _ _ rfl rfl
+        exact ⟨hI.1, extra_set hI _ (by simp [hx]), by simp only at h2 ⊢; omega, hI.4, hI.5⟩
+      · simp at h
+  | wOut =>
+    simp only at h
+    split at h
+    · simp at h
+    · split at h
+      · simp only [Option.some.injEq] at h; subst h; exact ⟨hI.1, hI.2, hI.3, hI.4, hI.5⟩
+      · split at h
+        · simp only [writerLeave, Variant.fixed, if_true, Bool.false_eq_true, if_false, Option.some.injEq] at h
+          subst h; exact ⟨hI.1, hI.2, hI.3, hI.4, hI.5⟩
+        · simp at h
+  | wClosing =>
+    simp only at h
+    split at h
+    · simp at h
+    · split at h
+      · simp only [writerLeave, Variant.fixed, if_true, Option.some.injEq] at h
+        subst h; exact ⟨hI.1, hI.2, hI.3, hI.4, hI.5⟩
+      · simp at h
+  | wOutFail =>
+    simp only at h
+    split at h
+    · simp at h
+    · split at h
+      · split at h
+        · simp only [writerLeave, Variant.fixed, if_true, Bool.false_eq_true, if_false, Option.some.injEq] at h
+          subst h; exact ⟨hI.1, hI.2, hI.3, hI.4, hI.5⟩
+        · simp at h
+      · simp at h
+
+theorem inv_run (caps : Caps) (s : St) (hI : Inv s) (sched : List Act) : Inv (run .fixed caps s sched) := by
+  induction sched generalizing s with
+  | nil => exact hI
+  | cons a as ih =>
+    simp only [run]
+    split
+    · rename_i s' hs; exact ih s' (inv_step caps s s' a hI hs)
+    · exact ih s hI
+
+/-- **the server never sends on, or closes, a closed channel**: whatever the client's first
+message, whatever further messages it sends (valid, reusing a channel, undecodable, failing),
+whenever it leaves, whatever the service emits and whenever it closes its channels, for every
+interleaving of the reader, the write loop, the adapter, the forwarders and the stoppers and every
+channel capacity. -/
+theorem c15_no_panic (caps : Caps) (m₀ : CMsg) (sched : List Act) :
+    (run .fixed caps (init m₀) sched).panic = none :=
+  (inv_run caps _ (inv_init m₀) sched).nopanic
+
+/-! ### when the client leaves, the service is told to stop and nobody of onet's is stuck -/
+
+/-- second invariant: who may have ended, and why -/
+structure Inv2 (s : St) : Prop where
+  adone : s.adone = true → s.stopAll = true ∧ s.inClosed = true ∧ s.inq = []
+  leaving : s.leaving = true → s.wdone = true
+  rexit : s.rpc = .done → s.closing = true ∨ s.wdone = true
+
+theorem inv2_init (m : CMsg) : Inv2 (init m) := by
+  constructor <;> simp [init]
+
+theorem inv2_step (caps : Caps) (s s' : St) (a : Act) (hI : Inv s) (hJ : Inv2 s)
+    (h : step .fixed caps s a = some s') : Inv2 s' := by
+  have hps : s.panic.isSome = false := by simp [hI.nopanic]
+  unfold step at h
+  simp only [hps, Bool.false_eq_true, if_false] at h
+  cases a with
+  | cSend m =>
+    simp only at h
+    split at h
+    · simp at h
+    · simp only [Option.some.injEq] at h; subst h; exact ⟨hJ.1, hJ.2, hJ.3⟩
+  | cLeave =>
+    simp only at h
+    split at h
+    · simp at h
+    · simp only [Option.some.injEq] at h; subst h; exact ⟨hJ.1, hJ.2, hJ.3⟩
+  | rStep =>
+    simp only at h
+    split at h
+    · rename_i hr
+      split at h
+      · simp only [readerExit, Variant.fixed, if_true, Option.some.injEq] at h; subst h
+        exact ⟨fun ha => ⟨(hJ.1 ha).1, rfl, (hJ.1 ha).2.2⟩, hJ.2, fun _ => Or.inl rfl⟩
+      · split at h
+        · simp only [Option.some.injEq] at h; subst h
+          exact ⟨hJ.1, hJ.2, fun hd => by simp at hd⟩
+        · split at h
+          · simp only [readerExit, Variant.fixed, if_true, Option.some.injEq] at h; subst h
+            exact ⟨fun ha => ⟨(hJ.1 ha).1, rfl, (hJ.1 ha).2.2⟩, hJ.2, fun _ => Or.inl rfl⟩
+          · simp at h
+    · rename_i m hr
+      have hnc : s.inClosed = false := by
+        cases hc : s.inClosed with
+        | false => rfl
+        | true => have := hI.rdone.mp hc; rw [hr] at this; simp at this
+      simp only [hnc, Bool.false_eq_true, if_false] at h
+      split at h
+      · simp only [Option.some.injEq] at h; subst h
+        refine ⟨fun ha => ?_, hJ.2, fun hd => by simp at hd⟩
+        have := (hJ.1 ha).2.1; simp [hnc] at this
+      · simp at h
+    · simp at h
+  | rLeave =>
+    simp only at h
+    split at h
+    · split at h
+      · rename_i hl
+        simp only [Variant.fixed, Bool.true_and] at hl
+        simp only [readerExit, Variant.fixed, if_true, Option.some.injEq] at h; subst h
+        exact ⟨fun ha => ⟨(hJ.1 ha).1, rfl, (hJ.1 ha).2.2⟩, hJ.2, fun _ => Or.inr (hJ.2 hl)⟩
+      · simp at h
+    · simp at h
+  | aStep =>
+    simp only at h
+    split at h
+    · simp at h
+    · rename_i hnd
+      have hnd' : s.adone = false := by simpa using hnd
+      split at h
+      · rename_i hq
+        split at h
+        · rename_i hc
+          simp only [Option.some.injEq] at h; subst h
+          exact ⟨fun _ => ⟨rfl, hc, hq⟩, hJ.2, hJ.3⟩
+        · simp at h
+      · rename_i m rest hq
+        split at h
+        · simp only [Option.some.injEq] at h; subst h
+          exact ⟨fun ha => by simp [hnd'] at ha, hJ.2, hJ.3⟩
+        · have hfail : ∀ c, Inv2 (adapterFail .fixed { s with inq := rest, calls := c }) := by
+            intro c
+            simp only [adapterFail, Variant.fixed, if_true]
+            exact ⟨fun ha => by simp [hnd'] at ha, hJ.2, hJ.3⟩
+          have hnew : ∀ c, Inv2 (newStream .fixed { s with inq := rest, calls := c }) := by
+            intro c
+            simp only [newStream, Variant.fixed, if_true]
+            split <;> exact ⟨fun ha => by simp [hnd'] at ha, hJ.2, hJ.3⟩
+          cases m with
+          | garbage => simp only [Option.some.injEq] at h; subst h; exact hfail s.calls
+          | failing => simp only [Option.some.injEq] at h; subst h; exact hfail (s.calls + 1)
+          | fresh => simp only [Option.some.injEq] at h; subst h; exact hnew (s.calls + 1)
+          | reuse j =>
+            simp only at h
+            split at h
+            · simp only [Option.some.injEq] at h; subst h; exact hnew (s.calls + 1)
+            · simp only [Variant.fixed, if_true, Option.some.injEq] at h; subst h
+              exact ⟨fun ha => by simp [hnd'] at ha, hJ.2, hJ.3⟩
+  | emit k f x =>
+    simp only at h
+    split at h
+    · simp at h
+    · split at h
+      · simp at h
+      · split at h
+        · simp only [Option.some.injEq] at h; subst h; exact ⟨hJ.1, hJ.2, hJ.3⟩
+        · simp at h
+  | svcClose k =>
+    simp only at h
+    split at h
+    · simp at h
+    · split at h
+      · simp at h
+      · simp only [Option.some.injEq] at h; subst h; exact ⟨hJ.1, hJ.2, hJ.3⟩
+  | fStep k f =>
+    simp only at h
+    split at h
+    · simp at h
+    · split at h
+      · split at h
+        · simp only [fwdExit, Variant.fixed, if_true, Option.some.injEq] at h; subst h
+          exact ⟨hJ.1, hJ.2, hJ.3⟩
+        · simp at h
+      · split at h
+        · simp only [Option.some.injEq] at h; subst h; exact ⟨hJ.1, hJ.2, hJ.3⟩
+        · split at h
+          · simp only [Option.some.injEq] at h; subst h; exact ⟨hJ.1, hJ.2, hJ.3⟩
+          · simp at h
+      · simp at h
+  | fDrop k f =>
+    simp only at h
+    split at h
+    · simp at h
+    · split at h
+      · split at h
+        · simp only [fwdExit, Variant.fixed, if_true, Option.some.injEq] at h; subst h
+          exact ⟨hJ.1, hJ.2, hJ.3⟩
+        · simp at h
+      · simp at h
+  | stop k =>
+    simp only at h
+    split at h
+    · simp at h
+    · split at h
+      · simp only [Option.some.injEq] at h; subst h; exact ⟨hJ.1, hJ.2, hJ.3⟩
+      · simp at h
+  | wOut =>
+    simp only at h
+    split at h
+    · simp at h
+    · split at h
+      · simp only [Option.some.injEq] at h; subst h; exact ⟨hJ.1, hJ.2, hJ.3⟩
+      · split at h
+        · simp only [writerLeave, Variant.fixed, if_true, Bool.false_eq_true, if_false, Option.some.injEq] at h
+          subst h; exact ⟨hJ.1, fun _ => rfl, fun _ => Or.inr rfl⟩
+        · simp at h
+  | wClosing =>
+    simp only at h
+    split at h
+    · simp at h
+    · split at h
+      · simp only [writerLeave, Variant.fixed, if_true, Option.some.injEq] at h
+        subst h; exact ⟨hJ.1, fun _ => rfl, fun _ => Or.inr rfl⟩
+      · simp at h
+  | wOutFail =>
+    simp only at h
+    split at h
+    · simp at h
+    · split at h
+      · split at h
+        · simp only [writerLeave, Variant.fixed, if_true, Bool.false_eq_true, if_false, Option.some.injEq] at h
+          subst h; exact ⟨hJ.1, fun _ => rfl, fun _ => Or.inr rfl⟩
+        · simp at h
+      · simp at h
+
+theorem inv12_run (caps : Caps) (s : St) (hI : Inv s) (hJ : Inv2 s) (sched : List Act) :
+    Inv (run .fixed caps s sched) ∧ Inv2 (run .fixed caps s sched) := by
+  induction sched generalizing s with
+  | nil => exact ⟨hI, hJ⟩
+  | cons a as ih =>
+    simp only [run]
+    split
+    · rename_i s' hs; exact ih s' (inv_step caps s s' a hI hs) (inv2_step caps s s' a hI hJ hs)
+    · exact ih s hI hJ
+
+/-- none of onet's own goroutines of this connection can move: reader, adapter, write loop, the
+stopper and the forwarder of every channel -/
+def Quiet (caps : Caps) (s : St) : Prop :=
+  step .fixed caps s .rStep = none ∧ step .fixed caps s .rLeave = none ∧
+  step .fixed caps s .aStep = none ∧
+  step .fixed caps s .wOut = none ∧ step .fixed caps s .wClosing = none ∧
+  step .fixed caps s .wOutFail = none ∧
+  (∀ k, step .fixed caps s (.stop k) = none) ∧
+  (∀ k, step .fixed caps s (.fStep k 0) = none ∧ step .fixed caps s (.fDrop k 0) = none)
+
+/-- **when the client closes or disappears first, the service is told to stop**: in every
+reachable state in which the client is gone and onet's goroutines have nothing left to do, the
+reader, the adapter and the write loop have all ended, `stopAll` and the stop channel of every
+stream are closed, and a forwarder that is still there waits for a channel its service has not
+closed yet — for every client behaviour before leaving, every service behaviour, every interleaving. -/
+theorem c15_client_leaves (caps : Caps) (hcap : 0 < caps.inCap) (m₀ : CMsg) (sched : List Act) :
+    let s := run .fixed caps (init m₀) sched
+    s.cGone = true → Quiet caps s →
+      s.rpc = .done ∧ s.adone = true ∧ s.wdone = true ∧ s.stopAll = true ∧
+      (∀ st ∈ s.streams, st.stopClosed = true) ∧
+      (∀ st ∈ s.streams, st.fwd = .done ∨ (st.fwd = .recv ∧ st.chanClosed = false)) := by
+  intro s hgone hq
+  obtain ⟨hI, hJ⟩ := inv12_run caps _ (inv_init m₀) (inv2_init m₀) sched
+  change Inv s at hI
+  change Inv2 s at hJ
+  have hps : s.panic.isSome = false := by simp [hI.nopanic]
+  obtain ⟨qr, ql, qa, qwo, qwc, qwf, qs, qf⟩ := hq
+  -- the adapter can always take a queued message
+  have aenabled : s.adone = false → s.inq ≠ [] → False := by
+    intro hnd hne
+    cases hq : s.inq with
+    | nil => exact hne hq
+    | cons m rest =>
+      have : (step .fixed caps s .aStep).isSome = true := by
+        unfold step
+        simp only [hps, Bool.false_eq_true, if_false, hnd, hq]
+        split
+        · rfl
+        · cases m with
+          | garbage => rfl
+          | failing => rfl
+          | fresh => rfl
+          | reuse j => simp only []; split <;> simp [Variant.fixed]
+      rw [qa] at this; simp at this
+  -- the reader has ended
+  have hr : s.rpc = .done := by
+    unfold step at qr
+    simp only [hps, Bool.false_eq_true, if_false] at qr
+    cases hrp : s.rpc with
+    | done => rfl
+    | read =>
+      simp only [hrp] at qr
+      split at qr
+      · simp at qr
+      · split at qr
+        · simp at qr
+        · simp [hgone] at qr
+    | hold m =>
+      exfalso
+      simp only [hrp] at qr
+      have hnc : s.inClosed = false := by
+        cases hc : s.inClosed with
+        | false => rfl
+        | true => have := hI.rdone.mp hc; rw [hrp] at this; simp at this
+      simp only [hnc, Bool.false_eq_true, if_false] at qr
+      split at qr
+      · simp at qr
+      · rename_i hfull
+        have hne : s.inq ≠ [] := by
+          intro he; rw [he] at hfull; simp at hfull; omega
+        cases had : s.adone with
+        | false => exact aenabled had hne
+        | true => exact hne (hJ.adone had).2.2
+  have hic : s.inClosed = true := hI.rdone.mpr hr
+  -- the adapter has ended
+  have ha : s.adone = true := by
+    cases had : s.adone with
+    | true => rfl
+    | false =>
+      exfalso
+      cases hq : s.inq with
+      | cons m rest => exact aenabled had (by simp [hq])
+      | nil =>
+        unfold step at qa
+        simp [hps, had, hq, hic] at qa
+  have hstop := (hJ.adone ha).1
+  -- the write loop has been left
+  have hw : s.wdone = true := by
+    cases hwd : s.wdone with
+    | true => rfl
+    | false =>
+      exfalso
+      rcases hJ.rexit hr with hc | hc
+      · unfold step at qwc
+        simp [hps, hwd, hc] at qwc
+      · simp [hwd] at hc
+  refine ⟨hr, ha, hw, hstop, ?_, ?_⟩
+  · intro st hst
+    obtain ⟨k, hk⟩ := List.getElem?_of_mem hst
+    have := qs k
+    unfold step at this
+    simp only [hps, Bool.false_eq_true, if_false, hk, hstop, Bool.true_or, Bool.true_and] at this
+    cases hsc : st.stopClosed with
+    | true => rfl
+    | false => simp [hsc] at this
+  · intro st hst
+    obtain ⟨k, hk⟩ := List.getElem?_of_mem hst
+    have hx := hI.noextra st hst
+    obtain ⟨q1, q2⟩ := qf k
+    unfold step at q1 q2
+    simp only [hps, Bool.false_eq_true, if_false, hk, getFwd, if_true] at q1 q2
+    cases hf : st.fwd with
+    | done => exact Or.inl rfl
+    | recv =>
+      right
+      refine ⟨rfl, ?_⟩
+      simp only [hf] at q1
+      cases hcc : st.chanClosed with
+      | false => rfl
+      | true => simp [hcc] at q1
+    | hold x =>
+      exfalso
+      simp only [hf, Variant.fixed, hstop, Bool.and_self, if_true] at q2
+      simp at q2
+
+/-! ### the stream of a client that just listens -/
+
+/-- the values of the data frames, in order -/
+def dataOf : List Frame → List Nat
+  | [] => []
+  | .data _ v :: l => v :: dataOf l
+  | _ :: l => dataOf l
+
+def heldOf : FPc → List Nat
+  | .hold v => [v]
+  | _ => []
+
+theorem dataOf_append (l₁ l₂ : List Frame) : dataOf (l₁ ++ l₂) = dataOf l₁ ++ dataOf l₂ := by
+  induction l₁ with
+  | nil => rfl
+  | cons f l ih => cases f <;> simp [dataOf, ih]
+
+/-- the client neither sends further messages nor leaves -/
+def passive : Act → Bool
+  | .cSend _ => false
+  | .cLeave => false
+  | _ => true
+
+/-- invariant of a stream opened by one valid request whose client only listens -/
+structure HInv (s : St) : Prop where
+  c2s : s.c2s = []
+  here : s.cGone = false
+  nohold : s.rpc = .read ∨ s.rpc = .done
+  notended : s.ended = false
+  shape : (s.inq = [.fresh] ∧ s.streams = []) ∨ (s.inq = [] ∧ ∃ st, s.streams = [st])
+  pre : s.streams = [] → s.s2c = [] ∧ s.outq = [] ∧ s.outClosed = false
+  closingW : s.closing = true → s.wdone = true
+  stopW : s.stopAll = true → s.wdone = true
+  inclosedW : s.inClosed = true → s.wdone = true
+  wsW : s.wsClosed = true → s.wdone = true
+  order : ∀ st, s.streams = [st] → st.emitted = dataOf s.s2c ++ s.outq.map (·.2) ++ heldOf st.fwd
+  noerr : Frame.closeError ∉ s.s2c
+  wdoneIff : s.wdone = true ↔ Frame.closeNormal ∈ s.s2c
+  wdoneAll : s.wdone = true → s.outq = [] ∧ ∀ st, s.streams = [st] → st.fwd = .done
+  doneClosed : ∀ st, s.streams = [st] → st.fwd = .done → st.chanClosed = true
+
+theorem hinv_init : HInv (init .fresh) := by
+  constructor <;> simp [init, dataOf]
+
+theorem single_set {l : List Stream} {st st0 st' : Stream} {k : Nat} (hl : l = [st]) (hk : l[k]? = some st0) :
+    k = 0 ∧ st0 = st ∧ l.set k st' = [st'] := by
+  subst hl
+  cases k with
+  | zero => simp at hk; exact ⟨rfl, hk.symm, rfl⟩
+  | succ n => simp at hk
+
+theorem hinv_step (caps : Caps) (s s' : St) (a : Act) (hI : Inv s) (hH : HInv s) (hpa : passive a = true)
+    (h : step .fixed caps s a = some s') : HInv s' := by
+  have hps : s.panic.isSome = false := by simp [hI.nopanic]
+  unfold step at h
+  simp only [hps, Bool.false_eq_true, if_false] at h
+  -- facts about the single stream
+  have hstream : ∀ k st0, s.streams[k]? = some st0 → s.streams = [st0] ∧ k = 0 := by
+    intro k st0 hk
+    rcases hH.shape with ⟨_, he⟩ | ⟨_, st, he⟩
+    · rw [he] at hk; simp at hk
+    · obtain ⟨h0, h1, _⟩ := single_set (st' := st) he hk
+      exact ⟨by rw [he, h1], h0⟩
+  cases a with
+  | cSend m => simp [passive] at hpa
+  | cLeave => simp [passive] at hpa
+  | rStep =>
+    simp only at h
+    split at h
+    · rename_i hr
+      split at h
+      · rename_i hws
+        simp only [readerExit, Variant.fixed, if_true, Option.some.injEq] at h; subst h
+        have hw := hH.wsW hws
+        exact ⟨hH.c2s, hH.here, Or.inr rfl, hH.notended, hH.shape, hH.pre, fun _ => hw, hH.stopW, fun _ => hw,
+          hH.wsW, hH.order, hH.noerr, hH.wdoneIff, hH.wdoneAll, hH.doneClosed⟩
+      · simp [hH.c2s, hH.here] at h
+    · rename_i m hr
+      rcases hH.nohold with h1 | h1 <;> simp [hr] at h1
+    · simp at h
+  | rLeave =>
+    simp only at h
+    split at h
+    · rename_i m hr
+      rcases hH.nohold with h1 | h1 <;> simp [hr] at h1
+    · simp at h
+  | aStep =>
+    simp only at h
+    split at h
+    · simp at h
+    · split at h
+      · rename_i hq
+        split at h
+        · rename_i hc
+          simp only [Option.some.injEq] at h; subst h
+          have hw := hH.inclosedW hc
+          exact ⟨hH.c2s, hH.here, hH.nohold, hH.notended, hH.shape, hH.pre, hH.closingW, fun _ => hw,
+            hH.inclosedW, hH.wsW, hH.order, hH.noerr, hH.wdoneIff, hH.wdoneAll, hH.doneClosed⟩
+        · simp at h
+      · rename_i m rest hq
+        rcases hH.shape with ⟨hi, he⟩ | ⟨hi, _⟩
+        · rw [hi] at hq
+          simp only [List.cons.injEq] at hq
+          obtain ⟨rfl, rfl⟩ := hq
+          simp only [hH.notended, Bool.false_eq_true, if_false, newStream, Variant.fixed, if_true,
+            (hH.pre he).2.2, Option.some.injEq] at h
+          subst h
+          obtain ⟨p1, p2, p3⟩ := hH.pre he
+          refine ⟨hH.c2s, hH.here, hH.nohold, rfl, Or.inr ⟨rfl, {}, by simp [he]⟩, by simp [he],
+            hH.closingW, hH.stopW, hH.inclosedW, hH.wsW, ?_, hH.noerr, hH.wdoneIff, ?_, ?_⟩
+          · intro st hst
+            simp only [he, List.nil_append, List.cons.injEq, and_true] at hst
+            subst hst
+            simp [p1, p2, dataOf, heldOf]
+          · intro hw
+            refine ⟨(hH.wdoneAll hw).1, ?_⟩
+            have := (hH.wdoneIff.mp hw); simp [p1] at this
+          · intro st hst hd
+            simp only [he, List.nil_append, List.cons.injEq, and_true] at hst
+            subst hst
+            simp at hd
+        · rw [hi] at hq; simp at hq
+  | emit k f x =>
+    simp only at h
+    split at h
+    · simp at h
+    · rename_i st0 hk
+      obtain ⟨hs1, rfl⟩ := hstream k st0 hk
+      split at h
+      · simp at h
+      · split at h
+        · rename_i hg
+          have hx := hI.noextra st0 (List.mem_of_getElem? hk)
+          obtain ⟨rfl, hfw⟩ := getFwd_zero st0 hx f _ hg
+          simp only [Option.some.injEq] at h; subst h
+          have hset : s.streams.set 0 (setFwd { st0 with emitted := st0.emitted ++ [x] } 0 (.hold x))
+              = [setFwd { st0 with emitted := st0.emitted ++ [x] } 0 (.hold x)] := by rw [hs1]; rfl
+          have hnw : s.wdone = false := by
+            cases hw : s.wdone with
+            | false => rfl
+            | true => have := (hH.wdoneAll hw).2 st0 hs1; rw [hfw] at this; simp at this
+          refine ⟨hH.c2s, hH.here, hH.nohold, hH.notended, ?_, ?_, hH.closingW, hH.stopW, hH.inclosedW, hH.wsW,
+            ?_, hH.noerr, hH.wdoneIff, ?_, ?_⟩
+          · rcases hH.shape with ⟨_, he⟩ | ⟨hi, _⟩
+            · rw [he] at hs1; simp at hs1
+            · exact Or.inr ⟨hi, _, hset⟩
+          · intro he; simp only [hset] at he; simp at he
+          · intro st hst
+            simp only [hset, List.cons.injEq, and_true] at hst
+            subst hst
+            have := hH.order st0 hs1
+            simp only [hfw, heldOf, List.append_nil] at this
+            simp [setFwd, heldOf, this]
+          · intro hw; simp [hnw] at hw
+          · intro st hst hd
+            simp only [hset, List.cons.injEq, and_true] at hst
+            subst hst
+            simp [setFwd] at hd
+        · simp at h
+  | svcClose k =>
+    simp only at h
+    split at h
+    · simp at h
+    · rename_i st0 hk
+      obtain ⟨hs1, rfl⟩ := hstream k st0 hk
+      split at h
+      · simp at h
+      · simp only [Option.some.injEq] at h; subst h
+        have hset : s.streams.set 0 { st0 with chanClosed := true } = [{ st0 with chanClosed := true }] := by
+          rw [hs1]; rfl
+        refine ⟨hH.c2s, hH.here, hH.nohold, hH.notended, ?_, ?_, hH.closingW, hH.stopW, hH.inclosedW, hH.wsW,
+          ?_, hH.noerr, hH.wdoneIff, ?_, ?_⟩
+        · rcases hH.shape with ⟨_, he⟩ | ⟨hi, _⟩
+          · rw [he] at hs1; simp at hs1
+          · exact Or.inr ⟨hi, _, hset⟩
+        · intro he; simp only [hset] at he; simp at he
+        · intro st hst
+          simp only [hset, List.cons.injEq, and_true] at hst
+          subst hst
+          exact hH.order st0 hs1
+        · intro hw
+          refine ⟨(hH.wdoneAll hw).1, ?_⟩
+          intro st hst
+          simp only [hset, List.cons.injEq, and_true] at hst
+          subst hst
+          exact (hH.wdoneAll hw).2 st0 hs1
+        · intro st hst _
+          simp only [hset, List.cons.injEq, and_true] at hst
+          subst hst
+          rfl
+  | fStep k f =>
+    simp only at h
+    split at h
+    · simp at h
+    · rename_i st0 hk
+      obtain ⟨hs1, rfl⟩ := hstream k st0 hk
+      have hx := hI.noextra st0 (List.mem_of_getElem? hk)
+      split at h
+      · rename_i hg
+        obtain ⟨rfl, hfw⟩ := getFwd_zero st0 hx f _ hg
+        split at h
+        · rename_i hcc
+          simp only [fwdExit, Variant.fixed, if_true, Option.some.injEq] at h; subst h
+          have hset : s.streams.set 0 (setFwd st0 0 .done) = [setFwd st0 0 .done] := by rw [hs1]; rfl
+          have hnw : s.wdone = false := by
+            cases hw : s.wdone with
+            | false => rfl
+            | true => have := (hH.wdoneAll hw).2 st0 hs1; rw [hfw] at this; simp at this
+          refine ⟨hH.c2s, hH.here, hH.nohold, hH.notended, ?_, ?_, hH.closingW, hH.stopW, hH.inclosedW, hH.wsW,
+            ?_, hH.noerr, hH.wdoneIff, ?_, ?_⟩
+          · rcases hH.shape with ⟨_, he⟩ | ⟨hi, _⟩
+            · rw [he] at hs1; simp at hs1
+            · exact Or.inr ⟨hi, _, hset⟩
+          · intro he; simp only [hset] at he; simp at he
+          · intro st hst
+            simp only [hset, List.cons.injEq, and_true] at hst
+            subst hst
+            have := hH.order st0 hs1
+            simp only [hfw, heldOf, List.append_nil] at this
+            simp [setFwd, heldOf, this]
+          · intro hw; simp [hnw] at hw
+          · intro st hst _
+            simp only [hset, List.cons.injEq, and_true] at hst
+            subst hst
+            simpa [setFwd] using hcc
+        · simp at h
+      · rename_i y hg
+        obtain ⟨rfl, hfw⟩ := getFwd_zero st0 hx f _ hg
+        have hpos := live_pos hk (by simp [live, hfw])
+        rw [← hI.count] at hpos
+        have hoc : s.outClosed = false := by
+          cases hc : s.outClosed with
+          | false => rfl
+          | true => have := hI.closedZero hc; omega
+        simp only [hoc, Bool.false_eq_true, if_false] at h
+        split at h
+        · simp only [Option.some.injEq] at h; subst h
+          have hset : s.streams.set 0 (setFwd st0 0 .recv) = [setFwd st0 0 .recv] := by rw [hs1]; rfl
+          have hnw : s.wdone = false := by
+            cases hw : s.wdone with
+            | false => rfl
+            | true => have := (hH.wdoneAll hw).2 st0 hs1; rw [hfw] at this; simp at this
+          refine ⟨hH.c2s, hH.here, hH.nohold, hH.notended, ?_, ?_, hH.closingW, hH.stopW, hH.inclosedW, hH.wsW,
+            ?_, hH.noerr, hH.wdoneIff, ?_, ?_⟩
+          · rcases hH.shape with ⟨_, he⟩ | ⟨hi, _⟩
+            · rw [he] at hs1; simp at hs1
+            · exact Or.inr ⟨hi, _, hset⟩
+          · intro he; simp only [hset] at he; simp at he
+          · intro st hst
+            simp only [hset, List.cons.injEq, and_true] at hst
+            subst hst
+            have := hH.order st0 hs1
+            simp only [hfw, heldOf] at this
+            simp [setFwd, heldOf, this]
+          · intro hw; simp [hnw] at hw
+          · intro st hst hd
+            simp only [hset, List.cons.injEq, and_true] at hst
+            subst hst
+            simp [setFwd] at hd
+        · simp at h
+      · simp at h
+  | fDrop k f =>
+    simp only at h
+    split at h
+    · simp at h
+    · rename_i st0 hk
+      obtain ⟨hs1, rfl⟩ := hstream k st0 hk
+      have hx := hI.noextra st0 (List.mem_of_getElem? hk)
+      split at h
+      · rename_i y hg
+        obtain ⟨rfl, hfw⟩ := getFwd_zero st0 hx f _ hg
+        split at h
+        · rename_i hst
+          simp only [Variant.fixed, Bool.true_and] at hst
+          have := (hH.wdoneAll (hH.stopW hst)).2 st0 hs1
+          rw [hfw] at this; simp at this
+        · simp at h
+      · simp at h
+  | stop k =>
+    simp only at h
+    split at h
+    · simp at h
+    · rename_i st0 hk
+      obtain ⟨hs1, rfl⟩ := hstream k st0 hk
+      split at h
+      · simp only [Option.some.injEq] at h; subst h
+        have hset : s.streams.set 0 { st0 with stopClosed := true } = [{ st0 with stopClosed := true }] := by
+          rw [hs1]; rfl
+        refine ⟨hH.c2s, hH.here, hH.nohold, hH.notended, ?_, ?_, hH.closingW, hH.stopW, hH.inclosedW, hH.wsW,
+          ?_, hH.noerr, hH.wdoneIff, ?_, ?_⟩
+        · rcases hH.shape with ⟨_, he⟩ | ⟨hi, _⟩
+          · rw [he] at hs1; simp at hs1
+          · exact Or.inr ⟨hi, _, hset⟩
+        · intro he; simp only [hset] at he; simp at he
+        · intro st hst
+          simp only [hset, List.cons.injEq, and_true] at hst
+          subst hst
+          exact hH.order st0 hs1
+        · intro hw
+          refine ⟨(hH.wdoneAll hw).1, ?_⟩
+          intro st hst
+          simp only [hset, List.cons.injEq, and_true] at hst
+          subst hst
+          exact (hH.wdoneAll hw).2 st0 hs1
+        · intro st hst hd
+          simp only [hset, List.cons.injEq, and_true] at hst
+          subst hst
+          exact hH.doneClosed st0 hs1 hd
+      · simp at h
+  | wOut =>
+    simp only at h
+    split at h
+    · simp at h
+    · rename_i hnw
+      have hnw' : s.wdone = false := by simpa using hnw
+      split at h
+      · rename_i k x rest hq
+        simp only [Option.some.injEq] at h; subst h
+        refine ⟨hH.c2s, hH.here, hH.nohold, hH.notended, hH.shape, ?_, hH.closingW, hH.stopW, hH.inclosedW, hH.wsW,
+          ?_, ?_, ?_, ?_, hH.doneClosed⟩
+        · intro he; have := (hH.pre he).2.1; simp [hq] at this
+        · intro st hst
+          have := hH.order st hst
+          simp only [hq, List.map_cons] at this
+          simp [dataOf_append, dataOf, this]
+        · simp only [List.mem_append, List.mem_singleton, not_or]
+          exact ⟨hH.noerr, by simp⟩
+        · simp only [List.mem_append, List.mem_singleton]
+          constructor
+          · intro hw; simp [hnw'] at hw
+          · intro hm
+            rcases hm with hm | hm
+            · exact hH.wdoneIff.mpr hm
+            · simp at hm
+        · intro hw; simp [hnw'] at hw
+      · rename_i hq
+        split at h
+        · rename_i hoc
+          simp only [writerLeave, Variant.fixed, if_true, Bool.false_eq_true, if_false, Option.some.injEq] at h
+          subst h
+          have hz := hI.closedZero hoc
+          refine ⟨hH.c2s, hH.here, hH.nohold, hH.notended, hH.shape, ?_, fun _ => rfl, fun _ => rfl, fun _ => rfl,
+            fun _ => rfl, ?_, ?_, ?_, ?_, hH.doneClosed⟩
+          · intro he; have := (hH.pre he).2.2; simp [hoc] at this
+          · intro st hst
+            simp [dataOf_append, dataOf, hH.order st hst]
+          · simp only [List.mem_append, List.mem_singleton, not_or]
+            exact ⟨hH.noerr, by simp⟩
+          · simp
+          · intro _
+            refine ⟨hq, ?_⟩
+            intro st hst
+            have hc := hI.count
+            rw [hz, hst] at hc
+            simp only [List.countP_cons, List.countP_nil, live] at hc
+            cases hf : st.fwd <;> simp [hf] at hc ⊢
+        · simp at h
+  | wClosing =>
+    simp only at h
+    split at h
+    · simp at h
+    · rename_i hnw
+      split at h
+      · rename_i hc
+        have := hH.closingW hc
+        simp [this] at hnw
+      · simp at h
+  | wOutFail =>
+    simp only at h
+    split at h
+    · simp at h
+    · split at h
+      · simp [hH.here] at h
+      · simp at h
+
+theorem hinv_run (caps : Caps) (s : St) (hI : Inv s) (hH : HInv s) (sched : List Act)
+    (hp : ∀ a ∈ sched, passive a = true) : Inv (run .fixed caps s sched) ∧ HInv (run .fixed caps s sched) := by
+  induction sched generalizing s with
+  | nil => exact ⟨hI, hH⟩
+  | cons a as ih =>
+    simp only [run]
+    have hpa := hp a (by simp)
+    have hpas : ∀ b ∈ as, passive b = true := fun b hb => hp b (by simp [hb])
+    split
+    · rename_i s' hs
+      exact ih s' (inv_step caps s s' a hI hs) (hinv_step caps s s' a hI hH hpa hs) hpas
+    · exact ih s hI hH hpas
+
+/-- **a client that only listens gets exactly what the service emitted, in order, then a normal
+close** (`_partial`: one request, passive client — the case of the statement's first sentence): for
+every number of emitted values, every point at which the service closes its channel, every
+interleaving and all channel capacities,
+* at every moment the values emitted so far are: those already written to the client, then those
+  queued in `outChan`, then the one the forwarder holds — nothing lost, nothing reordered;
+* no error close is ever written;
+* once the close frame is written it is a normal close, everything emitted was written before it,
+  and the service had closed its channel. -/
+theorem c15_happy_order_partial (caps : Caps) (sched : List Act) (hp : ∀ a ∈ sched, passive a = true) :
+    let s := run .fixed caps (init .fresh) sched
+    s.panic = none ∧
+    (∀ st, s.streams = [st] → st.emitted = dataOf s.s2c ++ s.outq.map (·.2) ++ heldOf st.fwd) ∧
+    Frame.closeError ∉ s.s2c ∧
+    (Frame.closeNormal ∈ s.s2c → s.outq = [] ∧ ∃ st, s.streams = [st] ∧ st.emitted = dataOf s.s2c ∧ st.chanClosed = true) := by
+  intro s
+  obtain ⟨hI, hH⟩ := hinv_run caps _ (inv_init .fresh) hinv_init sched hp
+  change Inv s at hI
+  change HInv s at hH
+  refine ⟨hI.nopanic, hH.order, hH.noerr, ?_⟩
+  intro hc
+  have hw := hH.wdoneIff.mpr hc
+  obtain ⟨hq, hd⟩ := hH.wdoneAll hw
+  rcases hH.shape with ⟨_, he⟩ | ⟨_, st, he⟩
+  · have := (hH.pre he).1; simp [this] at hc
+  · refine ⟨hq, st, he, ?_, hH.doneClosed st he (hd st he)⟩
+    have := hH.order st he
+    simpa [hq, hd st he, heldOf] using this
+
+/-! ### the full statement, and why the code before the repairs did not satisfy it -/
+
+/-- the values of channel `k` among the frames written / queued in `outChan` -/
+def dataOfK (k : Nat) : List Frame → List Nat
+  | [] => []
+  | .data j v :: l => if j = k then v :: dataOfK k l else dataOfK k l
+  | _ :: l => dataOfK k l
+
+def outqK (k : Nat) (q : List (Nat × Nat)) : List Nat := (q.filter (fun p => p.1 == k)).map (·.2)
+
+/-- actions of onet's own goroutines (everything but the client and the service) -/
+def internal : Act → Bool
+  | .cSend _ => false
+  | .cLeave => false
+  | .emit _ _ _ => false
+  | .svcClose _ => false
+  | _ => true
+
+/-- The full property for the code variant `v`: for every first message, every schedule of client,
+service and goroutines, all capacities —
+1. the server does not crash;
+2. while the client is there, per channel: what was written to the client, then what is queued, then
+   what the forwarder holds is, in this order, a prefix of what the service emitted;
+3. clean end: client still there, no bad message, a normal close written ⇒ every emitted value of
+   every channel was written before it;
+4. client gone and nothing left to do for onet's goroutines ⇒ reader, adapter and write loop have
+   ended and every stream's stop channel is closed. -/
+def C15_full (v : Variant) : Prop :=
+  ∀ (caps : Caps) (m₀ : CMsg) (sched : List Act), 0 < caps.inCap →
+    let s := run v caps (init m₀) sched
+    s.panic = none ∧
+    (s.cGone = false → ∀ (k : Nat) st, s.streams[k]? = some st →
+      (dataOfK k s.s2c ++ outqK k s.outq ++ heldOf st.fwd) <+: st.emitted) ∧
+    (s.cGone = false → s.ended = false → Frame.closeNormal ∈ s.s2c →
+      ∀ (k : Nat) st, s.streams[k]? = some st → st.emitted = dataOfK k s.s2c) ∧
+    (s.cGone = true → (∀ a, internal a = true → step v caps s a = none) →
+      s.rpc = .done ∧ s.adone = true ∧ s.wdone = true ∧ ∀ st ∈ s.streams, st.stopClosed = true)
+
+def caps10 : Caps := ⟨10, 100⟩
+
+/-- (a) **an undecodable second client message on a stream kills the old server**: the adapter
+closes `outChan` while the first request's forwarder is running; its next value is a send on a
+closed channel … -/
+theorem c15_old_undecodable_second_message_crashes :
+    (run .old caps10 (init .fresh)
+      [.aStep, .cSend .garbage, .rStep, .rStep, .aStep, .emit 0 0 7, .fStep 0 0]).panic
+      = some .sendOnClosedOut := by decide
+
+/-- … and if the service closes its channel instead, the forwarder's deferred close is a close of a
+closed channel -/
+theorem c15_old_undecodable_second_message_double_close :
+    (run .old caps10 (init .fresh)
+      [.aStep, .cSend .garbage, .rStep, .rStep, .aStep, .svcClose 0, .fStep 0 0]).panic
+      = some .closeOfClosedOut := by decide
+
+/-- (b) **a second valid request whose stream ends first**: its forwarder closes the shared
+`outChan`; the client is sent a normal close although the first stream goes on (cut short), and the
+first stream's next value is a send on a closed channel -/
+theorem c15_old_second_stream_ends_first :
+    let s := run .old caps10 (init .fresh)
+      [.aStep, .cSend .fresh, .rStep, .rStep, .aStep, .emit 0 0 1, .svcClose 1, .fStep 1 0, .wOut]
+    s.s2c = [.closeNormal] ∧ (s.streams[0]?.map (·.emitted)) = some [1] ∧
+    (run .old caps10 s [.fStep 0 0]).panic = some .sendOnClosedOut := by decide
+
+/-- (c) **the reader forwards into a just-closed `clientInputs`**: it has read a further client
+message when the service ends the stream; the write loop closes `clientInputs` on its way out -/
+theorem c15_old_reader_races_close :
+    (run .old caps10 (init .fresh)
+      [.aStep, .cSend .fresh, .rStep, .svcClose 0, .fStep 0 0, .wOut, .rStep]).panic
+      = some .sendOnClosedInputs := by decide
+
+/-- (d) found while modelling: **a channel handed out for two requests gets two forwarders and its
+values can overtake each other** (the service emitted 1 then 2, the client receives 2 then 1) -/
+theorem c15_old_shared_channel_reorders :
+    let s := run .old caps10 (init .fresh)
+      [.aStep, .cSend (.reuse 0), .rStep, .rStep, .aStep, .emit 0 0 1, .emit 0 1 2, .fStep 0 1, .fStep 0 0,
+       .wOut, .wOut]
+    s.panic = none ∧ (s.streams[0]?.map (·.emitted)) = some [1, 2] ∧ s.s2c = [.data 0 2, .data 0 1] := by
+  decide
+
+/-- each repair is needed on its own (the other two in place) -/
+theorem c15_each_repair_needed :
+    (run ⟨false, true, true⟩ caps10 (init .fresh)
+      [.aStep, .cSend .garbage, .rStep, .rStep, .aStep, .emit 0 0 7, .fStep 0 0]).panic = some .sendOnClosedOut ∧
+    (run ⟨true, false, true⟩ caps10 (init .fresh)
+      [.aStep, .cSend .fresh, .rStep, .svcClose 0, .fStep 0 0, .wOut, .rStep]).panic = some .sendOnClosedInputs ∧
+    (run ⟨true, true, false⟩ caps10 (init .fresh)
+      [.aStep, .cSend (.reuse 0), .rStep, .rStep, .aStep, .emit 0 0 1, .emit 0 1 2, .fStep 0 1, .fStep 0 0,
+       .wOut, .wOut]).s2c = [.data 0 2, .data 0 1] := by decide
+
+/-- **the full statement fails for the code before the repairs** (witness (a)) -/
+theorem c15_full_fails_old : ¬ C15_full .old := by
+  intro h
+  have := (h caps10 .fresh [.aStep, .cSend .garbage, .rStep, .rStep, .aStep, .emit 0 0 7, .fStep 0 0] (by decide)).1
+  rw [c15_old_undecodable_second_message_crashes] at this
+  cases this
+
+/-- the same schedules on the code as it is: no crash, the stream ends, the services are stopped -/
+example :
+    let s := run .fixed caps10 (init .fresh)
+      [.aStep, .cSend .garbage, .rStep, .rStep, .aStep, .emit 0 0 7, .fStep 0 0, .svcClose 0, .fStep 0 0,
+       .wOut, .wOut, .stop 0, .rStep, .aStep]
+    s.panic = none ∧ s.s2c = [.data 0 7, .closeNormal] ∧ s.adone = true ∧
+    (s.streams.map (·.stopClosed)) = [true] := by decide
+
+example :
+    (run .fixed caps10 (init .fresh)
+      [.aStep, .cSend .fresh, .rStep, .svcClose 0, .fStep 0 0, .wOut, .rStep, .rLeave]).panic = none := by decide
+
+/-- non-vacuity of `c15_client_leaves`: a reachable state in which the client is gone and nothing
+is left to do -/
+example :
+    let s := run .fixed caps10 (init .fresh)
+      [.aStep, .emit 0 0 5, .fStep 0 0, .cLeave, .rStep, .aStep, .wClosing, .stop 0, .svcClose 0, .fStep 0 0]
+    s.cGone = true ∧ s.rpc = .done ∧ s.adone = true ∧ s.wdone = true ∧
+    (s.streams.map (fun st => (st.stopClosed, st.fwd))) = [(true, .done)] := by decide
+
+/-- non-vacuity of `c15_happy_order_partial`: three values, delivered in order, normal close -/
+example :
+    (run .fixed caps10 (init .fresh)
+      [.aStep, .emit 0 0 1, .fStep 0 0, .emit 0 0 2, .wOut, .fStep 0 0, .emit 0 0 3, .fStep 0 0, .svcClose 0,
+       .wOut, .fStep 0 0, .wOut, .wOut]).s2c = [.data 0 1, .data 0 2, .data 0 3, .closeNormal] := by decide
 
 end C15
